@@ -267,20 +267,6 @@ fn args(p: &Prog, es: &[E], d: usize) -> String {
     es.iter().map(|e| expr(p, e, d)).collect::<Vec<_>>().join(", ")
 }
 
-pub fn roto_str_lit(s: &str) -> String {
-    let mut o = String::from("\"");
-    for c in s.chars() {
-        match c {
-            '"' => o.push_str("\\\""),
-            '\\' => o.push_str("\\\\"),
-            '\n' => o.push_str("\\n"),
-            c => o.push(c),
-        }
-    }
-    o.push('"');
-    o
-}
-
 fn pat(pt: &Pat, is_opt: bool) -> String {
     match pt {
         Pat::Wild => "_".to_string(),
